@@ -453,6 +453,39 @@ impl Domain for RpcDomain {
                     Err(s) => format!("echo {}", status_str(&s)),
                 }
             },
+            "echo-burst" => {
+                // echo-burst <seed> <size> <n>: n echo requests of `size` bytes IN FLIGHT AT ONCE over ONE shared connection (what a
+                // node does towards a peer during replication): every reply must equal its own request
+                let (seed, size, n) = (p_u64(t[1]), p_u64(t[2]) as usize, p_u64(t[3]));
+                self.server();
+                let ch = Channel::connect(self.addr);
+                let outs: Vec<String> = runtime().block_on(async move {
+                    let mut hs = Vec::new();
+                    for k in 0..n {
+                        let ch = ch.clone();
+                        hs.push(tokio::spawn(async move {
+                            let v = make_payload(seed.wrapping_add(k), size);
+                            let client = RpcClient::<EchoSvc>::new(ch);
+                            match client.send(&v).await {
+                                Ok(reply) => match reply.deserialize_view() {
+                                    Ok(back) => if back == v { "same".to_string() } else { "DIFFERENT".to_string() },
+                                    Err(_) => "undecodable".to_string(),
+                                },
+                                Err(s) => status_str(&s),
+                            }
+                        }));
+                    }
+                    let mut outs = Vec::new();
+                    for h in hs {
+                        outs.push(h.await.unwrap_or_else(|_| "panic".to_string()));
+                    }
+                    outs
+                });
+                let mut kinds: Vec<String> = outs.clone();
+                kinds.sort();
+                kinds.dedup();
+                format!("burst {}", kinds.iter().map(|k| format!("{}x{}", outs.iter().filter(|o| *o == k).count(), k)).collect::<Vec<_>>().join(","))
+            },
             "fail" => {
                 // fail <code> <hexmsg>: the handler returns Err(Status{code,message}); the client must see the same
                 let msg = String::from_utf8(unhex(t[2])).expect("utf8");
